@@ -34,22 +34,23 @@ Definition date_in_zone (z : zone) (u : Z) : Z :=
     if outside then u - offset_at z utc else u - off.
 
 (* firstAfter(wallClock, loc, prev): the first instant after prev_s that reads wall clock u *)
+Definition fa_pick (z : zone) (u prev_s : Z) (best : option Z) (c : Z) : option Z :=
+  if (wall_secs z c =? u) && (prev_s <? c)
+  then match best with Some b => if c <? b then Some c else best | None => Some c end
+  else best.
 Definition first_after (z : zone) (u prev_s : Z) : option Z :=
   let t := date_in_zone z u in
   let '(off, st, en) := lookup z t in
   let cands := [t]
     ++ (match st with Some s => [t + (off - offset_at z (s - 1))] | None => [] end)
     ++ (match en with Some e => [t + (off - offset_at z e)] | None => [] end) in
-  fold_left (fun best c =>
-               if (wall_secs z c =? u) && (prev_s <? c)
-               then match best with Some b => if c <? b then Some c else best | None => Some c end
-               else best) cands None.
+  fold_left (fa_pick z u prev_s) cands None.
 
 Inductive res := Fire (ns : Z) | Expired | ModelError.
 
 Definition max_nanos : Z := Params.max_int64.
 Definition nanos : Z := 1000000000.
-Definition zone_fuel : positive := 17179869184.   (* 2^34 > seconds between 1970 and 2263 *)
+Definition zone_fuel : positive := 137438953472.   (* 2^37 > seconds between 1970 and 3941 *)
 
 (* one iteration of NextFireTime's loop on wall clock reading w *)
 Definition nft_body (f : fields) (z : zone) (prev_s : Z) (w : civil) : civil + res :=
